@@ -45,7 +45,7 @@ def write_replay(oid, payload):
 
 
 def prove_pairs(res, oid, pairs, hyp=None, sampler=None, pv=None, call=None, backend="nf", subst=None,
-                seed=0, rtol=1e-6, expect_fail=False, signvars=None, prec="d", inv_atoms=False):
+                seed=0, rtol=1e-6, expect_fail=False, signvars=None, prec="d", inv_atoms=False, coef_tol=None):
     """Discharge `lhs == rhs` for every (entry, lhs, rhs) in pairs with the nf back end.
     On failure look for a numeric witness (inputs from `sampler` restricted to the path of `pv`) and replay it
     natively through `call` = (extract, fn, bufs).  One record per entry."""
@@ -76,7 +76,7 @@ def prove_pairs(res, oid, pairs, hyp=None, sampler=None, pv=None, call=None, bac
             allok = allok and ok
         return allok
     try:
-        ctx, out = engine.nf_prove(pairs, hyp, subst, inv_atoms=inv_atoms)
+        ctx, out = engine.nf_prove(pairs, hyp, subst, inv_atoms=inv_atoms, coef_tol=coef_tol)
     except (poly.NotPolynomial, ZeroDivisionError, NotImplementedError) as e:
         for entry, _, _ in pairs:
             res.add("%s/%s" % (oid, entry), "error", backend, 0.0, "nf: %r" % (e,))
@@ -90,7 +90,7 @@ def prove_pairs(res, oid, pairs, hyp=None, sampler=None, pv=None, call=None, bac
         return not failed
     for (entry, l, r), (_, ok, msg) in zip(pairs, out):
         if ok:
-            res.add("%s/%s" % (oid, entry), "proved", backend, dt)
+            res.add("%s/%s" % (oid, entry), "proved", backend if not msg else backend + "~lit", dt, msg)
     if failed:
         allok = False
         wit = None
